@@ -55,6 +55,7 @@ def run(rep: Report) -> None:
              "measurand expression of the same method", floor=13)
     rep.rule("R14.3", "no spurious singularity: a division by an operand's measurand must survive in f or in the "
              "simplified sigma^2", floor=4)
+    rep.rule("R14.9", "no flooring, truncating or rounding step (isqrt, int, round, floor, //) in Measurement arithmetic or the helpers it calls", floor=7)
     rep.rule("R14.8", "the Quantity operators Measurement arithmetic builds on (*, /, **) return the raw magnitudes combined, in the combined unit "
              "(representation, not only value)", floor=3)
     rep.rule("R14.6", "Measurement.__init__ stores the measurand and abs(uncertainty) (a number being put in the measurand's unit) and nothing else", floor=2)
@@ -62,6 +63,28 @@ def run(rep: Report) -> None:
     rep.rule("R07.9", "no assert in the package does part of the computation (python -O would drop it: sigma would be computed differently in optimised mode) - shared with C07", floor=1)
     rep.rule("R14.4", "the uncertainty is stored as abs(.) on every path of Measurement.__init__", floor=1)
     rep.rule("R14.5", "inventory: binary dunders that begin with the literal coercion Measurement(other, 0); the behaviour (a plain quantity acts as sigma = 0) is decided by R14.2 on the Quantity arm", armed=False, floor=13)
+    # R14.9: the combined uncertainty is a square root of a sum of squares - a real number.  Nothing on the way from the operands'
+    # uncertainties to the stored one floors, truncates or rounds (math.isqrt floors every radicand that is not a perfect square:
+    # (12 +- 1 ft) * (10 +- 1 m) would get +- 15 instead of 15.62)
+    FLOORING = {"math.isqrt", "isqrt", "round", "int", "math.floor", "math.ceil", "math.trunc", "floor", "ceil", "trunc", "divmod"}
+    hosts9: List[str] = []
+    for qual in list(OPS) + ["Measurement._join_uncertainties", "Measurement.__init__"]:
+        if qual in prog.functions and qual not in hosts9:
+            hosts9.append(qual)
+    for qual in list(hosts9):
+        for cs in resolver.callsites(qual):
+            for t in cs.targets:
+                tfi = prog.functions.get(t)
+                if tfi is not None and tfi.module == "" and (tfi.cls in (None, "", "Measurement")) and t not in hosts9 \
+                        and tfi.name not in ("_add", "_sub", "_mul", "_div", "_pow"):
+                    hosts9.append(t)
+    for qual in hosts9:
+        hfi = prog.functions[qual]
+        bad9 = [n for n in ast.walk(hfi.node) if (isinstance(n, ast.Call) and ast.unparse(n.func) in FLOORING)
+                or (isinstance(n, ast.BinOp) and isinstance(n.op, ast.FloorDiv))]
+        rep.check("R14.9", qual, not bad9,
+                  f"{qual} applies `{ast.unparse(bad9[0])[:50] if bad9 else ''}` on the way to the stored uncertainty: a flooring / rounding step - the combined "
+                  "uncertainty sqrt(sum of squares) is not an integer ((12 +- 1 ft) * (10 +- 1 m) gets +- 15 instead of 15.62)", hfi.where(bad9[0]) if bad9 else hfi.where())
     # R14.8: R14.1 and R14.2 read the measurand through the *specification* of the Quantity operator (magnitude**n in unit**n),
     # while Measurement's formulas use the operands' raw magnitudes: that is the result's uncertainty in the result's unit only
     # if the Quantity operator returns that representation, not merely an equal value in another unit
@@ -112,7 +135,9 @@ def run(rep: Report) -> None:
                 key = f"{qual}[{arm}]" + ("|" + "&".join(("" if v else "not ") + t for t, v in o.path) if o.path else "")
                 got = o.value
                 if not isinstance(got, MeasV):
-                    raise AnalysisError(f"{key} returns {describe(got)} ({getattr(got, 'why', '')}): outside the interpreted subset")
+                    # not a verdict - and not the end of the run either: what the other rules found is still reported
+                    rep.defer(AnalysisError(f"{key} returns {describe(got)} ({getattr(got, 'why', '')}): outside the interpreted subset"))
+                    continue
                 f = got.measurand.mag.rat
                 want_f = expected_measurand(kind, me, other)
                 if want_f is None:
